@@ -1116,6 +1116,23 @@ def builtin_summary(I, cal, args, node, st):
             else:
                 outs.append(o)
         return outs
+    if cal == 'core::iter::traits::iterator::Iterator::filter_map' and len(args) == 2 and args[1][0] in ('closure', 'fn'):
+        src = args[0]
+        el, st2 = st.fresh('elem')
+        el = ('elem', src, el[2])
+        outs = []
+        for o in I.apply(args[1], [el], node, st2):
+            if o.kind == 'val':
+                v = o.val
+                if v[0] == 'ctor' and v[1] == 'Some':
+                    outs.append(Out('val', ('many', src, el, v[2][0]), o.st))
+                elif v[0] == 'ctor' and v[1] == 'None':
+                    outs.append(Out('val', ('many', src, el, ('skip',)), o.st))
+                else:
+                    outs.append(Out('val', ('many', src, el, ('variant', v, 'Some', 0)), o.st))
+            else:
+                outs.append(o)
+        return outs
     if cal == 'core::iter::traits::iterator::Iterator::collect' and args:
         return [Out('val', args[0], st)]
     if (cal.endswith('alloc::vec::Vec::<T, A>::pop') or cal.endswith('IntoIter<T, A> as core::iter::traits::iterator::Iterator>::next')
